@@ -528,7 +528,7 @@ Qed.
 Definition heads (t : cst) (c : nat) : Prop :=
   forall a, In a (keys (replicas t)) -> exists tl, f_chain (wget (w t) a) = c :: tl.
 Definition fresh (s t : cst) : Prop :=
-  forall c, checkpoint t = Some c -> checkpoint s = Some c \/ heads t c.
+  forall c, checkpoint t = Some c -> checkpoint s = Some c \/ (count_rw (replicas t) = rf t /\ heads t c).
 
 Lemma fresh_ckn : forall s t, ckn s t -> fresh s t.
 Proof. intros s t [H|H] c Hc; [left; congruence|congruence]. Qed.
@@ -536,8 +536,9 @@ Proof. intros s t [H|H] c Hc; [left; congruence|congruence]. Qed.
 Lemma fresh_update : forall s x fs, struct_ok x -> fresh s (update_checkpoint x fs).
 Proof.
   intros s x fs H c Hc. right.
-  destruct (checkpoint_recorded_sound x fs c Hc) as [_ [_ [Hch _]]].
-  destruct (sst_update_checkpoint x fs) as [R _].
+  destruct (checkpoint_recorded_sound x fs c Hc) as [Hcnt [_ [Hch _]]].
+  destruct (sst_update_checkpoint x fs) as [R [_ [Rf _]]].
+  split; [rewrite R, Rf; exact Hcnt|].
   intros a Ha. rewrite R, <- (st_mirror x H), keys_proj in Ha. unfold keys in Ha.
   apply in_map_iff in Ha. destruct Ha as [p [Hp Hin]]. subst a.
   rewrite (update_checkpoint_keeps f_chain cpi_chain). exact (Hch p Hin).
@@ -546,8 +547,8 @@ Qed.
 Lemma fresh_start_frontend : forall s t, fresh s t -> fresh s (start_frontend t).
 Proof.
   intros s t Hf. unfold start_frontend. destruct (replicas t) eqn:E; [exact Hf|].
-  intros c Hc. destruct (Hf c Hc) as [P|P]; [left; exact P|right].
-  intros a Ha. exact (P a Ha).
+  intros c Hc. destruct (Hf c Hc) as [P|[P0 P]]; [left; exact P|right].
+  split; [exact P0|]. intros a Ha. exact (P a Ha).
 Qed.
 
 Theorem checkpoint_fresh_step : forall s e, struct_ok s -> ev_wf e = true -> fresh s (fst (fst (step s e))).
@@ -864,6 +865,25 @@ Proof.
   rewrite rep_diff_refl. reflexivity.
 Qed.
 
+(** a checkpoint that an event newly records: in the state after the event exactly RF replicas are
+    listed, all RW (nothing marks a replica ERR after the recording within the same event), the
+    checkpoint is the latest snapshot of every one of them and every one has persisted it *)
+Theorem recorded_checkpoint_all_rw : forall s e c, ck_inv s -> ev_wf e = true ->
+  checkpoint (fst (fst (step s e))) = Some c -> checkpoint s <> Some c ->
+  count_rw (replicas (fst (fst (step s e)))) = rf (fst (fst (step s e)))
+  /\ length (replicas (fst (fst (step s e)))) = rf (fst (fst (step s e)))
+  /\ forall a, In a (keys (replicas (fst (fst (step s e))))) ->
+       (exists tl, f_chain (wget (w (fst (fst (step s e)))) a) = c :: tl)
+       /\ f_cp (wget (w (fst (fst (step s e)))) a) = Some c /\ f_cpk (wget (w (fst (fst (step s e)))) a) = true.
+Proof.
+  intros s e c Hi Hwf Hc Hne.
+  pose proof (ck_inv_step s e Hi Hwf) as [_ [C1 _]]. destruct Hi as [Hst _].
+  destruct (checkpoint_fresh_step s e Hst Hwf c Hc) as [P|[P0 P]]; [contradiction|].
+  destruct (C1 c Hc) as [S2 [_ Hall]].
+  split; [exact P0|]. split; [exact S2|].
+  intros a Ha. destruct (Hall a Ha) as [_ [A2 A3]]. split; [exact (P a Ha)|]. split; assumption.
+Qed.
+
 Lemma c13_step_model : forall rf0 n q s e r0 ef0 r0',
   ck_inv s -> status_ok s -> rf s = rf0 -> addrs_lt n s -> ev_wf e = true -> ev_lt n e = true ->
   (q = true -> pend_mon (fst (fst (step s e))) = []) ->
@@ -901,19 +921,23 @@ Proof.
         rewrite E in L1. rewrite Hrf in L2. apply Nat.le_antisymm; assumption. }
       rewrite (snapshot_gate s name fs Hss Hne). cbn [fst snd]. unfold is_ack. cbn [o_res observe res_class res_eqb negb andb].
       apply untouched_with_res1.
-  - (* the recorded checkpoint *)
-    destruct q; [|reflexivity]. specialize (Hq eq_refl).
-    cbn [o_checkpoint observe].
+  - (* the recorded checkpoint: at quiescent points and at the moment it is recorded *)
+    cbn [o_checkpoint observe with_res1].
     destruct (checkpoint (fst (fst (step s e)))) as [c|] eqn:Ec; [|reflexivity].
-    destruct (sound_of_inv _ C1 M1 c Ec Hq) as [S1 [S2 _]]. destruct (C1 c Ec) as [_ [_ Hall]].
+    destruct (q || negb (onat_eqb (checkpoint s) (Some c))) eqn:Eq; [|reflexivity].
+    destruct (C1 c Ec) as [S2 [_ Hall]].
+    assert (S1 : count_rw (replicas (fst (fst (step s e)))) = rf (fst (fst (step s e)))).
+    { destruct q.
+      - exact (proj1 (sound_of_inv _ C1 M1 c Ec (Hq eq_refl))).
+      - cbn [orb] in Eq. apply negb_true_iff in Eq.
+        destruct (Hfr c Ec) as [P|[P _]]; [rewrite P, onat_eqb_refl in Eq; discriminate|exact P]. }
     cbn [o_replicas observe]. rewrite S1, S2, Hrf1, Hrf, !Nat.eqb_refl. cbn [andb].
     apply forallb_forall. intros a Ha.
     pose proof (Hlt1 a Ha) as Han. destruct (Hall a Ha) as [A1 [A2 A3]].
     rewrite chain_of_observe, rep_of_observe by exact Han. rewrite (mem_in _ _ A1). cbn [andb].
     cbn [o_cp observe_rep]. rewrite A2, onat_eqb_refl, andb_true_r.
-    cbn [o_checkpoint with_res1 observe].
     destruct (onat_eqb (checkpoint s) (Some c)) eqn:Eo; [reflexivity|].
-    destruct (Hfr c Ec) as [P|P]; [rewrite P, onat_eqb_refl in Eo; discriminate|].
+    destruct (Hfr c Ec) as [P|[_ P]]; [rewrite P, onat_eqb_refl in Eo; discriminate|].
     destruct (P a Ha) as [tl Ht]. rewrite Ht. apply Nat.eqb_refl.
 Qed.
 
